@@ -89,12 +89,15 @@ func runC32(c *core.Ctx) {
 
 	// 3. the threshold comparison num >= T(sum)
 	var thr *ssa.BinOp
-	var thrCond ir.Cond
-	for _, cd := range ir.Conds(fn) {
-		if b, ok := cd.V.(*ssa.BinOp); ok && (b.Op == token.GEQ || b.Op == token.LSS) {
-			if _, isPhi := b.X.(*ssa.Phi); isPhi {
-				if _, err := eng.ExtractExpr(b.Y, func(v ssa.Value) bool { _, isPhi := v.(*ssa.Phi); return isPhi }); err == nil {
-					thr, thrCond = b, cd
+	var thrSite cmpSite
+	sites, releaseSites := cmpSites(fn)
+	defer releaseSites()
+	isPhiLeaf := func(v ssa.Value) bool { _, isPhi := ir.Resolve(v).(*ssa.Phi); return isPhi }
+	for _, st := range sites {
+		if b := st.B; b.Op == token.GEQ || b.Op == token.LSS {
+			if isPhiLeaf(b.X) {
+				if _, err := eng.ExtractExpr(b.Y, isPhiLeaf); err == nil {
+					thr, thrSite = b, st
 				}
 			}
 		}
@@ -103,10 +106,10 @@ func runC32(c *core.Ctx) {
 		c.Broken("C32.threshold", fn, "num >= T(sum) comparison", c.P.Rel(fn.Pos()), "not found")
 		return
 	}
-	numPhi := thr.X.(*ssa.Phi)
+	numPhi := ir.Resolve(thr.X).(*ssa.Phi)
 	var sumPhi *ssa.Phi
 	tree, err := eng.ExtractExpr(thr.Y, func(v ssa.Value) bool {
-		if p, ok := v.(*ssa.Phi); ok && p != numPhi {
+		if p, ok := ir.Resolve(v).(*ssa.Phi); ok && p != numPhi {
 			sumPhi = p
 			return true
 		}
@@ -124,16 +127,7 @@ func runC32(c *core.Ctx) {
 		ok, why := eng.EqualForAll(tree, want, 0)
 		c.Decide(ok, "C32.threshold", fn, "accept iff num >= ⌈2·sum/3⌉", c.P.Rel(thr.Pos()), why)
 	}
-	passIdx := thrCond.TrueIdx()
-	if thr.Op == token.LSS {
-		passIdx = thrCond.FalseIdx()
-	}
-	thrGuard := eng.NamedGuard{Name: "num >= ⌈2·sum/3⌉", G: func(cd ir.Cond) (bool, bool) {
-		if cd.If == thrCond.If {
-			return true, passIdx == cd.TrueIdx()
-		}
-		return false, false
-	}}
+	thrGuard := siteGuard("num >= ⌈2·sum/3⌉", thrSite, thr.Op == token.GEQ)
 	trueRets := ir.BoolReturnSinks(fn, 0, true)
 	eng.Dominates(c, "C32.threshold", fn, thrGuard, trueRets, "return true", nil)
 	eng.MustPassCall(c, "C32.sign-set-reset", fn, "deleteConsensusSigns(key)", eng.CallPred(delCS), trueRets, "return true", nil)
@@ -187,20 +181,8 @@ func runC32(c *core.Ctx) {
 		if !ok || !isFieldNamed(lk.X, "SignsMap") {
 			return false, false
 		}
-		cl, _ := ir.CallOf(lk.Index)
-		if cl == nil || !ir.CalleeIs(cl, afp) {
-			return false, false
-		}
-		// argument derives from DeserializePublicKey(hex.DecodeString(iteration key))
-		pk, _ := ir.CallOf(cl.Common().Args[0])
-		if pk == nil || ir.CalleeObj(pk) == nil || ir.CalleeObj(pk).Name() != "DeserializePublicKey" {
-			return false, false
-		}
-		hx, _ := ir.CallOf(pk.Common().Args[0])
-		if hx == nil || !ir.IsPkgFunc(hx, "encoding/hex", "DecodeString") {
-			return false, false
-		}
-		if ex2, ok := ir.Strip(hx.Common().Args[0]).(*ssa.Extract); !ok || ex2.Tuple != ssa.Value(lp.Next) || ex2.Index != 1 {
+		// key = AddressFromPubKey(DeserializePublicKey(hex.DecodeString(iteration key))), inline or via a helper
+		if !derivedPeerAddr(afp, lp.Next)(lk.Index) {
 			return false, false
 		}
 		return true, true
